@@ -118,6 +118,9 @@ pub struct Case {
     /// checkpoint = set_epoch + set_fast_forward, iter() again, train)
     #[serde(default)]
     pub history: Vec<Op>,
+    /// the files are written with CR LF line ends
+    #[serde(default)]
+    pub crlf: bool,
     #[serde(default)]
     pub two_loaders: bool,
 }
@@ -321,9 +324,10 @@ pub fn write_files(c: &Case, uniq: &str) -> std::io::Result<Files> {
     let mut paths = vec![];
     for (i, lines) in c.files.iter().enumerate() {
         let p = dir.join(format!("f{i}.jsonl"));
-        let mut s = lines.join("\n");
+        let eol = if c.crlf { "\r\n" } else { "\n" };
+        let mut s = lines.join(eol);
         if !lines.is_empty() {
-            s.push('\n');
+            s.push_str(eol);
         }
         std::fs::write(&p, s)?;
         paths.push(p.display().to_string());
@@ -837,7 +841,17 @@ impl Prop for C08 {
             for l in 0..nlines {
                 match rng.random_range(0..25) {
                     0 => {
-                        lines.push("this is not json".to_string());
+                        // lines that are not items: not JSON, JSON that is not an object, values
+                        // of the wrong type, an empty line
+                        let bad = [
+                            "this is not json".to_string(),
+                            json!({"input": 5}).to_string(),
+                            json!({"input": format!("t{f}x{l}q bad target"), "target": 7}).to_string(),
+                            "[1, 2]".to_string(),
+                            "\"only a string\"".to_string(),
+                            String::new(),
+                        ];
+                        lines.push(bad.choose(rng).unwrap().clone());
                         continue;
                     }
                     1 => {
@@ -965,6 +979,7 @@ impl Prop for C08 {
             fresh_process: rng.random_range(0..8) == 0,
             chaos_seed: rng.random(),
             two_loaders: rng.random_bool(0.4),
+            crlf: rng.random_range(0..6) == 0,
             history: if rng.random_bool(0.6) {
                 (0..rng.random_range(1..=4))
                     .map(|_| match rng.random_range(0..8) {
@@ -1398,6 +1413,7 @@ fn check_inner(c: &Case, files: &Files, obs: &mut Obs) {
         || c.pre_per_source.iter().any(is_random)
         || !matches!(c.post, Post::None | Post::Clip);
     obs.tag_if(!c.pre_per_source.is_empty(), "pre-per-source");
+    obs.tag_if(c.crlf, "crlf-line-ends");
     // (long lane: more than 2^16 items through one pipe count as non-trivial as well)
     obs.nontrivial_if((randomised || flat(&b0).len() > 65_536) && b0.len() >= 2 && max_threads >= 2);
     obs.add("loader_runs", runs);
